@@ -2053,7 +2053,18 @@ unit(name="SrcIit", props="property C07", file="src/data_structures/interval_tre
                      self_fields=[("entries", "Vec<InternalEntry>"), ("max_level", "usize")], params=[], ret=None,
                      locals={"last_i": "usize", "k": "usize", "x": "usize", "i0": "usize", "step": "usize"},
                      # `(1 << k) <= n` fails after at most 64 rounds (a shift by 64 would panic first)
-                     fuel=["65"], theorem="RbV.Thm.GenSrcIit.indexCore_eq_model")])
+                     fuel=["65"], theorem="RbV.Thm.GenSrcIit.indexCore_eq_model"),
+                dict(name="ArrayBackedIntervalTree::find_into", lean="findInto",
+                     header="pub fn find_into<'b, 'a: 'b, I: Into<Interval<N>>>(&'a self, interval: I, "
+                            "results: &'b mut Vec<Entry<'a, N, D>>,)",
+                     structs={"Entry": [("interval", "Interval"), ("data", "D")],
+                              "StackCell": [("k", "usize"), ("x", "usize"), ("w", "bool")]},
+                     zero_ctors=["StackCell::empty"],
+                     self_fields=[("entries", "Vec<InternalEntry>"), ("max_level", "usize"), ("indexed", "bool")],
+                     params=[("interval", "Interval"), ("results", "&mut Vec<Entry>")], ret=None,
+                     locals={"t": "usize", "stack": "[StackCell; 64]"},
+                     # every round removes at least one unit of the weight 3^(k+1) / 3^k + 1 of the stack cells
+                     fuel=["3 ^ (max_level + 2)"], theorem="RbV.Thm.GenSrcIit.findInto_eq_model")])
 
 
 # ================================================================================================== self-test
